@@ -37,6 +37,9 @@ theorem analysis_closure :
 theorem analysis_dispatched : (Extracted.runEvents.any fun e => match e with | .call .analysisRun _ => true | _ => false) = true := by
   decide +kernel
 
+/-- in analysis mode `run` calls nothing else: every other step of the dispatcher is confined to filtering mode -/
+theorem modes_separated : ModesSeparated Extracted.runEvents = true := by decide +kernel
+
 /-! ### ref counters -/
 
 theorem countRefs_step_inv (c : RefCounts) (names : List Bytes)
